@@ -1707,8 +1707,30 @@ void Builder::setData(const BuildData& bd)
             static_cast<AnalogPayload&>(*d->obj).setData(bd.data.data(), bd.data.size());
             break;
         case wire::K_CMSTAT:
-            static_cast<CaptureModulePayload&>(*d->obj).setData(bd.str[0], bd.str[1], bd.str[2], bd.str[3], bd.vendor);
+        {
+            // every other call hands the strings over as views into exact-size heap blocks WITHOUT a terminator behind them
+            // (a substring of a larger buffer, a field of a parsed line): a std::string always has a NUL behind its
+            // characters, a std::string_view has not - and here ASan sees any read past the view
+            size_t total = 0;
+            for (auto& q : bd.str)
+                total += q.size();
+            if (total % 2)
+            {
+                std::unique_ptr<char[]> blk[4];
+                std::string_view v[4];
+                for (int i = 0; i < 4; ++i)
+                {
+                    blk[i].reset(new char[bd.str[i].size() ? bd.str[i].size() : 1]);
+                    if (!bd.str[i].empty())
+                        memcpy(blk[i].get(), bd.str[i].data(), bd.str[i].size());
+                    v[i] = std::string_view(blk[i].get(), bd.str[i].size());
+                }
+                static_cast<CaptureModulePayload&>(*d->obj).setData(v[0], v[1], v[2], v[3], bd.vendor);
+            }
+            else
+                static_cast<CaptureModulePayload&>(*d->obj).setData(bd.str[0], bd.str[1], bd.str[2], bd.str[3], bd.vendor);
             break;
+        }
         default:
             static_cast<InterfacePayload&>(*d->obj).setData(bd.data.data(),
                                                             static_cast<uint16_t>(bd.data.size()),
